@@ -15,6 +15,13 @@ Property clause → theorem
 
 All statements quantify over every window size `N ≥ 1`, every accepted-height gap `acc`, every
 finite op list (`sample rate height` with `height > 0`, `discardAll`, `deactivate`) from the empty store.
+
+* the premise "for a FIXED window size N": on the chain N and the gap are (re)installed by governance; every installation
+  deletes every stored window, so every maximal stretch between two installations is such an op list from the empty
+  store                                                   → `Props/C17Reconf.lean` (`every_segment_is_a_fresh_run`,
+                                                             `no_oob_across_reconfigurations`, `activation_needs_N_fresh_positive`, …)
+* how the chain produces the sample sequences of all assets → `Props/C17Feed.lean`, `C17Reconf.chain_window_history`
+* the last clause per real consumer                        → `C17Reconf.strict_readers_fail_closed` (+ finding D35)
 -/
 namespace Comdex.C17
 open Comdex.Twa
